@@ -119,10 +119,10 @@ Proof.
   change (2 ^ N.of_nat 0) with 1.
   assert (E : N_of_bits l * 2 + ((if b then 1 else 0) * 1 + 0) = 2 * N_of_bits l + (if b then 1 else 0)) by lia. rewrite E.
   f_equal.
-  - rewrite <- IH at 2. f_equal. rewrite N.div2_div. destruct b; lia.
+  - rewrite N.div2_div. replace ((2 * N_of_bits l + (if b then 1 else 0)) / 2) with (N_of_bits l) by (destruct b; lia). exact IH.
   - f_equal. destruct b.
-    + rewrite N.odd_add_mul_2. reflexivity.
-    + rewrite N.add_0_r, N.odd_mul, andb_false_l. reflexivity.
+    + rewrite N.add_comm, N.odd_add_mul_2. reflexivity.
+    + rewrite N.add_comm, N.odd_add_mul_2. reflexivity.
 Qed.
 
 (* bit [length r] of  hi * 2^(1 + |r|) + bits (b :: r)  is b *)
